@@ -82,7 +82,7 @@ PROPS = {
     "C11": {
         "lean_modules": ["RosedVerif.Props.C11"],
         "theorems": "auto",
-        "groups": ["A-para", "A-wrap", "A-justify", "A-align", "A-indent", "X-wrap", "X-justify", "X-align"],
+        "groups": ["A-para", "A-wrap", "A-justify", "A-align", "A-indent", "A-commit", "X-wrap", "X-justify", "X-align"],
         "oracle": True,
         "tie": "hand-written model (Model/Ops.lean applyGParagraphsOpts and the paragraph branches of Wrap/Justify/Align/Indent) tied by A-para and the layout groups",
     },
